@@ -1,9 +1,15 @@
 use std::fmt::{Debug, Formatter};
 use std::io;
+#[cfg(not(indicatif_verif))]
 use std::sync::{Arc, RwLock};
+#[cfg(indicatif_verif)]
+use verif_simrt::sync::{Arc, RwLock};
 use std::thread::panicking;
+#[cfg(not(indicatif_verif))]
 #[cfg(not(target_arch = "wasm32"))]
 use std::time::Instant;
+#[cfg(indicatif_verif)]
+use verif_simrt::time::Instant;
 
 use crate::draw_target::{
     visual_line_count, DrawState, DrawStateWrapper, LineAdjust, LineType, ProgressDrawTarget,
